@@ -4,6 +4,7 @@ package main
 // C17 (Response), C20 (custom functions).
 
 import (
+	"time"
 	"fmt"
 	"strconv"
 	"strings"
@@ -83,6 +84,54 @@ func casesC14(g *Gen) []*Case {
 		obj := gvMap("id", gvInt(1), "ID", gvInt(2), "Id", gvInt(3), "iD", gvInt(4), "name", gvStr("n"), "Name", gvStr("N"), "NAME", gvStr("NN"), "nam", gvInt(0), "namee", gvInt(9))
 		for _, src := range []string{"{{ obj }}", "@dump(obj)", "{{ {id: 1, ID: 2, Id: 3, iD: 4, name: 5, Name: 6, NAME: 7} }}", "@each(o in [obj, obj])[{{ o }}]@end"} {
 			addRepeated("case_variant_keys", newTree(), nil, opEvs(src, gvMap("obj", obj)), src)
+		}
+	}
+	// big containers: more keys / items than any bound an implementation might put on what it sorts or prints
+	for _, n := range []int{255, 256, 257, 1000, 1001, 1025, 1500} {
+		obj := gvMap()
+		var items []*GV
+		for k := 0; k < n; k++ {
+			obj.Keys = append(obj.Keys, fmt.Sprintf("k%04d", (k*7919)%n))
+			obj.Elems = append(obj.Elems, gvInt(int64(k)))
+			items = append(items, gvInt(int64(k)))
+		}
+		data := gvMap("obj", obj, "list", gvList(items...), "nested", gvMap("inner", obj))
+		for _, src := range []string{"@dump(obj)", "{{ obj }}", "@dump(nested)", "@dump(list)", "{{ list.len() }}{{ nested }}"} {
+			for k := 0; k < 2; k++ {
+				ops := []string{opEvs(src, data), opEvs(src, data), opEvs(src, data)}
+				c := histCase("big_containers", newTree(), ops, fmt.Sprintf("%s with %d keys / items (x3, process copy %d)", src, n, k))
+				c.Oracle = allSame(0)
+				c.Timeout = 60 * time.Second
+				cs = append(cs, c)
+			}
+		}
+	}
+	// big trees with several faulty files far apart: loading reports the same fault every time
+	for _, n := range []int{64, 127, 128, 130, 200, 300} {
+		t := newTree()
+		for k := 0; k < n; k++ {
+			src := fmt.Sprintf("page %d {{ 1 + %d }}", k, k)
+			switch {
+			case k == n/8+1:
+				src = "a\n{{ 1 + }}"
+			case k == n/2+3:
+				src = "a\n\n{{ ) }}"
+			case k == n-4:
+				src = "@if(true)open"
+			case k == n/4*3:
+				src = "@component(\"nosuchcomp\")"
+			}
+			t.files[fmt.Sprintf("tpl/s%d/p%03d.tw", k%5, k)] = src
+		}
+		for k := 0; k < 2; k++ {
+			var ops []string
+			for r := 0; r < 12; r++ {
+				ops = append(ops, opNew("tpl", ".tw", "", false))
+			}
+			c := histCase("big_tree_several_faults", t, ops, fmt.Sprintf("NewTemplate x12 over %d files, four of them faulty (process copy %d)", n, k))
+			c.Oracle = allSame(0)
+			c.Timeout = 120 * time.Second
+			cs = append(cs, c)
 		}
 	}
 	// keys that are equal up to leading zeros, digit runs, separators: still one fixed order
@@ -215,6 +264,8 @@ func c16Tree() *Tree {
 	t.files["tpl/components/c.tw"] = "<c>@slot</c>"
 	t.files["tpl/slotdata.tw"] = "@component(\"~c\")@slot@if(false)x@elseif(who == \"Ann\")A@else B@end@end@end"
 	t.files["tpl/ternarydata.tw"] = "{{ true ? (false ? 1 : who) : 2 }}"
+	// a file of the same relative path below the template directory: EvaluateFile never looks there
+	t.files["tpl/files/f.tw"] = "not this one {{ who }}"
 	return t
 }
 
@@ -226,7 +277,7 @@ func c16Ops() []string {
 		opStr("top", nil), opStr("read", nil), opStr("retype", nil), opStr("loops", nil), opStr("withlayout", d1), opStr("layouts/l", d1),
 		opResp("home", d1), opResp("bad", d1), opResp("missing", nil), opResp("read", nil), opResp("loops", nil),
 		opEvs("{{ total = 1 }}{{ total }}", nil), opEvs("[{{ total }}]", nil), opEvs("{{ who }}!", d1), opEvs("{{ 1 + }}", nil), opEvs("@each(x in xs){{ x }}@if(x == 2){{ nosuch }}@end@end", d1),
-		opEvf("files/f.tw", d1), opEvf("files/none.tw", nil),
+		opEvf("files/f.tw", d1), opEvf("files/none.tw", nil), opEvfRel("files/f.tw", d2), opEvfRel("./files/../files/f.tw", d1),
 		opStr("elseifdata", d1), opStr("elseifdata", d2), opStr("slotdata", d1), opStr("slotdata", d2), opStr("ternarydata", d1), opStr("ternarydata", d2),
 	}
 }
@@ -272,6 +323,19 @@ func casesC16(g *Gen) []*Case {
 			}
 			return ""
 		}
+		cs = append(cs, c)
+	}
+	// two different sources of one length whose usual 32-bit checksums are equal, evaluated one after the other
+	for _, col := range collidingPairs("c16", numShape("<p>{{ \"", "\" }}</p>")) {
+		t := c16Tree()
+		t.files["files/a.tw"] = col.a
+		t.files["files/b.tw"] = col.b
+		inner := func(x string) string { return x[len("<p>{{ \"") : len(x)-len("\" }}</p>")] }
+		wa, wb := wantOK("<p>"+inner(col.a)+"</p>"), wantOK("<p>"+inner(col.b)+"</p>")
+		seq := []string{opNew("tpl", ".tw", "", false), opEvs(col.a, nil), opEvs(col.b, nil), opEvs(col.a, nil), opEvf("files/b.tw", nil), opEvf("files/a.tw", nil), opEvs(col.b, nil)}
+		c := histCase("checksum_twins", t, seq, "EvaluateString / EvaluateFile of two sources that collide under "+col.fn)
+		c.Oracle = expectResults(map[int]func(string) string{1: wa, 2: wb, 3: wa, 4: wb, 5: wa, 6: wb})
+		c.Tags = []string{col.fn}
 		cs = append(cs, c)
 	}
 	// all histories of length ≤ 1 (quick) / ≤ 2 (thorough) exhaustively, then random longer ones
@@ -323,6 +387,8 @@ func casesC17(g *Gen) []*Case {
 		t.files["tpl/insertfail.tw"] = "@use(\"lay\")@insert(\"c\")PARTIAL-MARK\n\n{{ nosuchname }}@end"
 		t.files["tpl/argfail.tw"] = "PARTIAL-MARK @component(\"comp\", {a: nosuchname})"
 		t.files["tpl/loopok.tw"] = "@each(x in [1, 2])<{{ x }}>@end@for(i = 0; i < 2; i++)[{{ i }}]@end"
+		t.files["tpl/longmsg.tw"] = "PARTIAL-MARK {{ " + strings.Repeat("averylongname", 40) + "_end }}"
+		t.files["tpl/uni.tw"] = "héllo wörld ✓ 日本 {{ who }} — {{ \"é\".upper() }}"
 		t.files["tpl/err.tw"] = "custom error page 50%@each(q in [1])@end{{ who = 5 }}"
 		return t
 	}
@@ -346,6 +412,8 @@ func casesC17(g *Gen) []*Case {
 		{"insertfail", false, "", "nosuchname", "3", "insertfail.tw"},
 		{"argfail", false, "", "nosuchname", "1", "argfail.tw"},
 		{"loopok", true, "<1><2>[0][1]", "", "", ""},
+		{"uni", true, "héllo wörld ✓ 日本 A%s — É", "", "", ""},
+		{"longmsg", false, "", strings.Repeat("averylongname", 40) + "_end", "1", "longmsg.tw"},
 		{"late", false, "", "nosuchname", "2", "late.tw"},
 		{"loopok", true, "<1><2>[0][1]", "", "", ""},
 	}
@@ -672,6 +740,34 @@ func casesC20(g *Gen) []*Case {
 		c.Oracle = expectResults(map[int]func(string) string{1: wantOK("a, ***, c|a, ***, c|a, bad, c|3|1, 2")})
 		cs = append(cs, c)
 	}
+	// a nil function value takes the name like any other registration (and is not callable)
+	for _, ty := range c20Types {
+		rv := recvs[ty]
+		ops := []string{opReg(ty, "nf", 9), opReg(ty, "nf", 0), opReg(ty, "nf", 9), opEvs("{{ "+rv.lit+".nf() }}", data), opReg(ty, "ok", 0), opReg(ty, "ok", 9), opEvs("{{ "+rv.varName+".ok().ok() }}", data)}
+		c := histCase("nil_function_value", newTree(), ops, "Register(nil); Register(fn) under the same name; call; Register(fn); Register(nil) under that name; call")
+		regErr := func(r string) string {
+			if strings.HasPrefix(r, "REGERR") {
+				return ""
+			}
+			return "a second registration of the name must be refused: " + clip(r, 120)
+		}
+		c.Oracle = expectResults(map[int]func(string) string{0: func(r string) string {
+			if r == "REGOK" {
+				return ""
+			}
+			return "the first registration must succeed: " + r
+		}, 1: regErr, 2: regErr, 3: wantErr("nf"), 5: regErr})
+		cs = append(cs, c)
+	}
+	// an array function that extends the slice it receives, first by a value of its own: the arguments arrive intact
+	{
+		ops := []string{opReg("arr", "tagged", 3),
+			opEvs(`{{ [1].tagged(9) }}|{{ [1, 2, 3].tagged(7, 8) }}|{{ [].tagged("a", [1], {k: 2}) }}|{{ xs.tagged(xs[0], xs) }}|{{ xs }}|{{ [1, 2, 3, 4, 5].tagged(6, 7, 8, 9).len() }}`,
+				gvMap("xs", gvList(gvStr("p"), gvStr("q"))))}
+		c := histCase("array_function_extends_receiver", newTree(), ops, "Register(arr tagged); calls with arguments")
+		c.Oracle = expectResults(map[int]func(string) string{1: wantOK("1, tag, 9|1, 2, 3, tag, 7, 8|tag, a, 1, {k: 2}|p, q, tag, p, p, q|p, q|10")})
+		cs = append(cs, c)
+	}
 	// a function registered after a Template has already rendered is callable from its templates too
 	{
 		t := newTree()
@@ -747,6 +843,8 @@ func casesC15(g *Gen) []*Case {
 		opStr("num", gvMap("n", gvInt(1), "ns", gvList(gvInt(2), gvInt(3)))), opStr("num", gvMap("n", gvFloat(1), "ns", gvList(gvFloat(2), gvFloat(3)))),
 		// literals with every special character in every context, loops whose bodies branch
 		opStr("lits", d1), opStr("lits", d2), opStr("branchy", d1), opStr("branchy", d2), opStr("lits", d1), opStr("branchy", d1),
+		// very deep pages that stay deep for most of their running time
+		opStr("deep", d1), opStr("deep", d2), opStr("deepexpr", d1),
 	}
 	n := g.scale(24, 400)
 	for i := 0; i < n; i++ {
@@ -756,6 +854,8 @@ func casesC15(g *Gen) []*Case {
 		t.files["tpl/sh.tw"] = `{{ [1, 2, 3, 4, 5, 6, 7, 8].shuffle().len() }}`
 		t.files["tpl/num.tw"] = `@use("~l")@insert("b")@for(i = 0; i < 150; i++)@end<b>{{ n }}</b>{{ n / 2 }} @each(v in ns){{ v }},@end@end`
 		t.files["tpl/components/lit.tw"] = `[{{ t }}|@slot]`
+		t.files["tpl/deep.tw"] = strings.Repeat("@if(true)@each(e in [1])", 350) + "{{ who }}@for(i = 0; i < 400; i++)@if(i % 100 == 0){{ i }}@end@end" + strings.Repeat("@end@end", 350)
+		t.files["tpl/deepexpr.tw"] = "{{ " + strings.Repeat("[", 600) + "who" + strings.Repeat("]", 600) + " }}{{ " + strings.Repeat("-(", 500) + "1" + strings.Repeat(")", 500) + " }}"
 		t.files["tpl/lits.tw"] = `@use("~l")@insert("b"){{ "<b>&</b> 'q' \"dq\" <i>long literal text with & and < and > repeated & again</i>" }}` +
 			`@each(x in xs){{ "<" + "&'" }}@component("~lit", {t: "<t>&\"'"})@slot{{ "s<&>'" }}@end@end@end{{ "<raw>&".raw() }}{{ true ? "<y>'" : "<n>" }}{{ {k: "<v>&"}.k }}{{ ["<e>'"][0] }}@end`
 		t.files["tpl/branchy.tw"] = `@use("~l")@insert("b")@each(x in xs)@if(x == 2)<b>{{ x }}</b>@else e@end@for(j = 0; j < 0; j++)<i>{{ j }}</i>@else n@end` +
@@ -766,7 +866,7 @@ func casesC15(g *Gen) []*Case {
 		for j := 0; j < k; j++ {
 			work = append(work, pool[g.n(len(pool))])
 		}
-		np := len(pool)
+		np := len(pool) - 3
 		switch i % 6 {
 		case 1: // the same page with data that differ in the numeric type only
 			work = []string{pool[np-10], pool[np-9]}
@@ -774,6 +874,8 @@ func casesC15(g *Gen) []*Case {
 			work = []string{pool[np-6], pool[np-5], pool[np-4], pool[np-3]}
 		case 5:
 			work = append(work, pool[np-10], pool[np-4], pool[np-9], pool[np-6])
+		case 4: // many deep renders at the same moment
+			work = []string{pool[np], pool[np+1], pool[np+2]}
 		}
 		G := []int{2, 4, 8, 16}[i%4]
 		procs := []int{1, 2, 16}[i%3]
